@@ -1136,6 +1136,28 @@ fn enumerate(tier: vcore::Tier) -> Vec<Case> {
                     g.push(field, format!("{}..{}", fmt_num(lo), fmt_num(hi)), diff, I16, false, diff <= 32767.0, bname, d, flags, e);
                 }
             }
+            // the same between the last point of one contour and the first point of the next (glyf encodes the
+            // first point of a contour relative to the last point of the previous contour)
+            for (lo, hi) in [(-20000.0, 20000.0), (-16383.0, 16384.0), (-32768.0, 32767.0)] {
+                for (field, isx) in [("point.dx-between-contours", true), ("point.dy-between-contours", false)] {
+                    let mut d = base.clone();
+                    each_layer(&mut d, None, "d", |l| {
+                        let (a, b) = if isx {
+                            (shapes::rect(lo, 10.0, lo + 100.0, 690.0), shapes::rect(hi - 100.0, 10.0, hi, 690.0))
+                        } else {
+                            (shapes::rect(40.0, lo, 460.0, lo + 100.0), shapes::rect(40.0, hi - 100.0, 460.0, hi))
+                        };
+                        l.contours = vec![a, b];
+                    });
+                    let e = outline_expect(&d, CP_D, "d", 0.0);
+                    // every step inside a contour is small. Whichever points end up adjacent across the two contours, their
+                    // distance lies between (hi - 100) - (lo + 100) and hi - lo: the cases are chosen so that both bounds
+                    // are on the same side of 32767
+                    let (least, most) = (hi - 100.0 - (lo + 100.0), hi - lo);
+                    assert!(most <= 32767.0 || least > 32767.0);
+                    g.push(field, format!("{}..{}", fmt_num(lo), fmt_num(hi)), most, I16, false, most <= 32767.0, bname, d, flags, e);
+                }
+            }
             // component placed so that only the RESOLVED coordinate leaves the range
             for (px, dx) in [(32767.0, 10.0), (32000.0, 767.0), (32000.0, 768.0), (-32768.0, -10.0)] {
                 let mut d = base.clone();
